@@ -761,3 +761,31 @@ def c02(tier='quick'):
         base = arith(consumers=('local', 'cmp')) + arithlit(tier='quick') + compare() + casts() + unary() + control() + composites() + refs()
         return base + castuse(tier) + c02_extra(tier) + c08(tier) + c18(tier)
     return c01_thorough() + c02_extra(tier) + c04(tier) + c08(tier) + c18(tier) + c05(tier, 0)
+
+
+# ------------------------------------------------------------------------------------------------ C10 wide literals
+I128, U128, I256, U256 = IntT(128, True), IntT(128, False), IntT(256, True), IntT(256, False)
+
+
+def c10_wide(tier='quick'):
+    """An integer literal of a 128/256-bit type keeps its value in generated code: the literal is compared (==, >, <)
+    with a value built from the parameter and its low 64 bits are returned; boundary values around 2^63, 2^64, 2^127."""
+    out = []
+    vals = {I128: [0, 1, -1, 2**63 - 1, 2**63, 2**64 - 1, 2**64, 2**100 + 12345, 2**127 - 1, -2**127, -2**63, -2**63 - 1, -2**64],
+            U128: [0, 2**63, 2**64 - 1, 2**64, 2**127, 2**128 - 1],
+            I256: [2**63, 2**64 - 1, 2**127, 2**200 + 7, 2**255 - 1, -2**255, -2**64 + 1],
+            U256: [2**63, 2**64 - 1, 2**128, 2**256 - 1]}
+    if tier == 'quick':
+        vals = {k: v for k, v in vals.items()}
+    for ty, vs in vals.items():
+        for i, v in enumerate(vs):
+            c, z, e = Var('c', ty), Var('z', ty), Var('e', ty)
+            # e is built from the parameter without relying on what a negative value cast to a wide unsigned type means
+            mk_e = [Let('e', ty, Cast(X, ty))] if ty.signed else [Let('u', U64, Cast(X, U64)), Let('e', ty, Cast(Var('u', U64), ty))]
+            body = [Let('c', ty, Lit(v, ty)), Let('z', ty, Lit(0, ty))] + mk_e + [
+                    If(Cmp('==', e, c), [Return(Lit(7, I64))]),
+                    If(Cmp('>', c, z), [Return(Bin('+', Cast(c, I64), Lit(1000, I64)))]),
+                    If(Cmp('<', c, e), [Return(Lit(3, I64))]),
+                    Return(Cast(c, I64))]
+            out.append(Template('c10/wide/%s/%d' % (ty.name, i), fn1(body), family='c10-wide-literal'))
+    return out
